@@ -274,6 +274,11 @@ def install(engine: Any) -> None:
         _touch(it, "open-write" if "w" in (m or "") else "open-read", base)
         return VExt("io.File", z3.Int(it.path.fresh_name("$fid")), {"path": base, "mode": m})
 
+    def f_exit(it, base, args, kwargs, node, fr):
+        if "w" in (base.data.get("mode") or ""):
+            _touch(it, "close", base.data["path"])
+        return NONE
+
     def p_mkdir(it, base, args, kwargs, node, fr):
         _touch(it, "mkdir", base)
         it.path.cache[("fs-epoch", base.ident.sexpr())] = _epoch(it, base) + 1
@@ -337,6 +342,7 @@ def install(engine: Any) -> None:
     em[("Path", "glob")] = p_glob
     em[("Path", "relative_to")] = p_relative_to
     em[("Path", "as_posix")] = p_as_posix
+    em[("File", "__exit__")] = f_exit
 
     for nm, fn in (("exists", p_exists), ("is_file", p_is_file), ("is_dir", p_is_dir), ("read_text", p_read_text),
                    ("open", p_open), ("mkdir", p_mkdir), ("rename", p_rename), ("unlink", p_unlink),
